@@ -254,13 +254,21 @@ def _rand_scene(rng: random.Random, kind: str):
     ego = EgoPose()
     ests, gts = [], []
     dup = rng.random() < 0.2  # exact duplicates of positions -> exact score ties
+    twins = rng.random() < 0.3
+    twin_yaw, gtwin_yaw = [], []
     for i in range(ne):
         if kind == "3d":
             p = (rng.uniform(-spread, spread), rng.uniform(-spread, spread), rng.uniform(-1, 1))
             if dup and ests and rng.random() < 0.3:
                 p = tuple(ests[-1].state.position)
-            o = obj3d(p, yaw=rng.uniform(-math.pi, math.pi), size=(rng.uniform(0.5, 3), rng.uniform(0.5, 6), rng.uniform(1, 3)),
-                      label=rng.choice(elabs), score=rng.random(), uuid="e%d" % i, vid=i + 1,
+            yaw_, lab_ = rng.uniform(-math.pi, math.pi), rng.choice(elabs)
+            if twins and ests and rng.random() < 0.4:
+                # concentric twin: same centre, heading, label and time as the previous estimate, another extent / confidence / maybe frame
+                # (two distinct objects that compare equal under DynamicObject.__eq__)
+                p, yaw_, lab_ = tuple(ests[-1].state.position), twin_yaw[-1], ests[-1].semantic_label.label.value
+            twin_yaw.append(yaw_)
+            o = obj3d(p, yaw=yaw_, size=(rng.uniform(0.5, 3), rng.uniform(0.5, 6), rng.uniform(1, 3)),
+                      label=lab_, score=rng.random(), uuid="e%d" % i, vid=i + 1,
                       frame="map" if (nfr > 1 and rng.random() < 0.3) else "base_link", ego=ego)
         else:
             o = obj2d((rng.randint(0, int(spread * 10)), rng.randint(0, int(spread * 10))), size=(rng.randint(1, 60), rng.randint(1, 60)),
@@ -273,8 +281,12 @@ def _rand_scene(rng: random.Random, kind: str):
                 p = (b[0] + rng.gauss(0, 1.0), b[1] + rng.gauss(0, 1.0), b[2] + rng.gauss(0, 0.3))
             else:
                 p = (rng.uniform(-spread, spread), rng.uniform(-spread, spread), rng.uniform(-1, 1))
-            o = obj3d(p, yaw=rng.uniform(-math.pi, math.pi), size=(rng.uniform(0.5, 3), rng.uniform(0.5, 6), rng.uniform(1, 3)),
-                      label=rng.choice(glabs), score=1.0, uuid="g%d" % j, vid=j + 1,
+            yaw_, lab_ = rng.uniform(-math.pi, math.pi), rng.choice(glabs)
+            if twins and gts and rng.random() < 0.4:
+                p, yaw_, lab_ = tuple(gts[-1].state.position), gtwin_yaw[-1], gts[-1].semantic_label.label.value
+            gtwin_yaw.append(yaw_)
+            o = obj3d(p, yaw=yaw_, size=(rng.uniform(0.5, 3), rng.uniform(0.5, 6), rng.uniform(1, 3)),
+                      label=lab_, score=1.0, uuid="g%d" % j, vid=j + 1,
                       frame="map" if (nfr > 1 and rng.random() < 0.3) else "base_link", ego=ego)
         else:
             if ests and rng.random() < 0.6:
